@@ -535,7 +535,10 @@ fn check(ctx: &Ctx, p: &CfProg, st: &mut St) {
                 continue;
             }
         };
-        for owned in [false, true] {
+        // Request mode: every parent value as an extra output (they must keep their
+        // contents), or only the program's declared outputs - then a value used only
+        // inside a subgraph has no other consumer and may be captured by value.
+        for (owned, declared_only) in [(false, false), (true, false), (false, true), (true, true)] {
             let x0t = subject::to_tensor(&x0_val());
             let mut inputs: Vec<(NodeId, ValueOrView)> = Vec::new();
             let Some(xid) = model.find_node("x0") else { continue };
@@ -549,11 +552,14 @@ fn check(ctx: &Ctx, p: &CfProg, st: &mut St) {
                     inputs.push((id, ValueOrView::Value(Value::from(rten_tensor::Tensor::from(*b as i32)))));
                 }
             }
-            let req: Vec<(String, NArr, NodeId)> = want.iter().filter_map(|(n, a)| model.find_node(n).map(|id| (n.clone(), a.clone(), id))).collect();
+            let req: Vec<(String, NArr, NodeId)> = want.iter().filter(|(n, _)| !declared_only || p.top.outputs.contains(n)).filter_map(|(n, a)| model.find_node(n).map(|id| (n.clone(), a.clone(), id))).collect();
+            if req.is_empty() {
+                continue;
+            }
             let ids: Vec<NodeId> = req.iter().map(|r| r.2).collect();
             st.runs += 1;
-            let cfgs = format!("{}, {} input", if optimize { "optimized" } else { "unoptimized" }, if owned { "owned" } else { "borrowed" });
-            let case = || json!({"class": p.class, "program": format!("{:?}", p.top), "bool_inputs": p.bool_inputs.iter().map(|x| json!([x.0, x.1])).collect::<Vec<_>>(), "optimize": optimize, "owned": owned, "index": st.programs});
+            let cfgs = format!("{}, {} input{}", if optimize { "optimized" } else { "unoptimized" }, if owned { "owned" } else { "borrowed" }, if declared_only { ", only declared outputs requested" } else { "" });
+            let case = || json!({"class": p.class, "program": format!("{:?}", p.top), "bool_inputs": p.bool_inputs.iter().map(|x| json!([x.0, x.1])).collect::<Vec<_>>(), "optimize": optimize, "owned": owned, "declared_only": declared_only, "index": st.programs});
             match vp_core::catch(|| model.run(inputs, &ids, None)) {
                 Ok(Ok(vals)) => {
                     for (k, (n, a, _)) in req.iter().enumerate() {
